@@ -28,13 +28,23 @@ def Kind.isVarLike : Kind → Bool
   | .variable | .temporary => true
   | _ => false
 
+/-- AccessFlags of one visited object: READ, WRITE (`<<=`, `.next`, `@=`, `.value`, reset of a pushed signal) or
+    PUSH (`^=`, `.push`) -/
+inductive AccKind | read | write | push
+  deriving DecidableEq, Repr
+
 structure Access where
   root : Nat
-  /-- AccessFlags.WRITE or PUSH (`false` = READ) -/
-  write : Bool
+  acc : AccKind
   /-- the access is made by a statement of the always block (`with cohdl.always:` / `cohdl.always(expr)`) -/
   viaAlways : Bool
   deriving DecidableEq, Repr
+
+/-- `access is AccessFlags.WRITE or access is AccessFlags.PUSH` - the test of `check_usage`: a push assignment is a
+    write of its signal (it registers the context in `written_in` and is subject to the input-port rule) -/
+def Access.write (a : Access) : Bool := a.acc == .write || a.acc == .push
+
+def Access.push (a : Access) : Bool := a.acc == .push
 
 inductive CtxKind | seq | conc
   deriving DecidableEq, Repr
@@ -160,6 +170,8 @@ def ctxFrontend (fixed : Bool) (kinds : List Kind) (c : Ctx) : Bool :=
   && c.alwaysAccs.all (fun a => kindOf kinds a.root != .variable || (!fixed && !a.write))
   -- "temporary read before it was written" / "always expression cannot inherit temporaries"
   && tempsOk kinds [] c.alwaysAccs && tempsOk kinds [] c.bodyAccs
+  -- push assignments (`^=` / `.push`) exist only in the body of a sequential context
+  && (c.kind == .seq || c.accs.all (fun a => !a.push)) && c.alwaysAccs.all (fun a => !a.push)
 
 def frontend (fixed : Bool) (d : Design) : Bool :=
   d.ctxs.all (ctxFrontend fixed d.kinds)
@@ -203,7 +215,7 @@ def users (e : List DUnit) (r : Nat) : Nat := e.countP (fun u => u.refs.contains
 /-! ### line protocol
     `check kinds <chars> {ctx <s|c> <acc>*} {inst <i<root>|o<root>>*}`
        chars: s signal, i input port, o output port, b inout port, v variable, t temporary (root k = k-th char)
-       acc  : `w<root>` | `r<root>` with suffix `a` when made in the always block
+       acc  : `w<root>` | `r<root>` | `p<root>` (push) with suffix `a` when made in the always block
     answer: `<fixed: ok|rej> <unfixed: ok|rej> <drivers per root, comma separated> <users per root>` -/
 
 def kindOfChar : Char → Option Kind
@@ -220,7 +232,8 @@ def accOfTok (t : String) : Option Access :=
     match (String.ofList digits).toNat? with
     | none => none
     | some r =>
-      if c = 'w' then some ⟨r, true, alw⟩ else if c = 'r' then some ⟨r, false, alw⟩ else none
+      if c = 'w' then some ⟨r, .write, alw⟩ else if c = 'r' then some ⟨r, .read, alw⟩
+      else if c = 'p' then some ⟨r, .push, alw⟩ else none
   | [] => none
 
 partial def parseItems (toks : List String) (ctxs : List Ctx) (insts : List Inst) : Option (List Ctx × List Inst) :=
